@@ -278,7 +278,7 @@ fn from_owner(d: &mut Driver, ch: &mut dyn Chooser, id: u32) {
 
 // ------------------------------------------------------------------ start states
 
-pub const N_STARTS: usize = 14;
+pub const N_STARTS: usize = 16;
 
 /// Put the pool into one of the named start states (for bounded-exhaustive enumeration).
 pub fn start_state(d: &mut Driver, which: usize) {
@@ -390,6 +390,26 @@ pub fn start_state(d: &mut Driver, which: usize) {
             drop(b.split_off(16));
             d.add(Val::M(a), m1, Origin::Heap);
             d.add(Val::M(b), m2, Origin::Heap);
+        }
+        13 => {
+            d.log("start empty BytesMut that came back from a truncated, never-cloned exact Bytes".into());
+            // Bytes::truncate on the unpromoted form must keep the allocation size recoverable: the sole,
+            // empty owner below must be able to reclaim all n bytes (C08), on even and odd addresses
+            let mut b = Bytes::from(exact(&m));
+            b.truncate(5);
+            let mut bm = BytesMut::from(b);
+            bm.clear();
+            d.add(Val::M(bm), Vec::new(), Origin::Heap);
+        }
+        14 => {
+            d.log("start frozen survivor of a split whose sibling was converted to Vec while shared".into());
+            // the survivor is alone on the buffer again: converting it back must not copy (C07/C08)
+            let mut bm = BytesMut::with_capacity(32);
+            bm.extend_from_slice(&m);
+            let head = bm.split_to(4);
+            let v: Vec<u8> = head.into();
+            d.add(Val::V(v), m[..4].to_vec(), Origin::Heap);
+            d.add(Val::B(bm.freeze()), m[4..].to_vec(), Origin::Heap);
         }
         _ => {
             d.log("start BytesMut exact (len==cap) + empty sibling".into());
